@@ -1,5 +1,6 @@
 import GrinVerif.Drv.Common
 import GrinVerif.Model.TxBlock
+import GrinVerif.Model.TxOverage
 /-! Driver glue for the `tx` domain (C12): aggregation, cut-through, de-aggregation,
 block → compact block → hydrate.  Lines (see `harness/src/bin/tx.rs`):
 
@@ -197,6 +198,20 @@ def handle (st : St) (args : List String) (impl : String) : St × Verdict :=
       let (k0, k1) := sipKeys bh nonce
       (st, cmpSpec (showHexList (kernIdsOf h256 k0 k1 khs)) impl)
     | _, _, _ => (st, .unknown)
+  -- run `collide`: what both compact-block readers answer on the short ids `From<Block>` would
+  -- write under this nonce: refused iff two of the (sorted) ids are equal
+  | ["cbread", _, bh, nonce, khs] =>
+    match parseHex bh, nat? nonce, parseHexList khs with
+    | some bh, some nonce, some khs =>
+      let (k0, k1) := sipKeys bh nonce
+      let ids := (kernIdsOf h256 k0 k1 khs).map ofBE
+      -- the ids are in their hash order by construction (`sort` cannot come up); equal ids have
+      -- equal hashes and stand next to each other: `compactReadIds` on the order keys = `adjDup` here
+      let r := if adjDup ids then "refused" else "accepted"
+      (st, cmpModel r impl)
+    | _, _, _ => (st, .unknown)
+  -- two coinbase outputs and kernels: both in the full vectors, ids = the transaction kernels
+  | ["cbtwo", nk] => (st, cmpModel s!"2 2 {nk} true true" impl)
   | ["def", _, i, off, v, ins, outs, kers] =>
     match nat? i, parseHex off, parseNatList ins, parseNatList outs, parseNatList kers with
     | some i, some off, some ins, some outs, some kers =>
@@ -217,6 +232,17 @@ def handle (st : St) (args : List String) (impl : String) : St × Verdict :=
       match txValidateGates K st.kmeta CT true .asTransaction t none with
       | some e => (st, cmpModel (showBRes (some e)) impl)
       | none => (st, cmpModel (if impl == "later" then "later" else "ok") impl)
+    | none => (st, .unknown)
+  -- `Committed::verify_kernel_sums(overage, offset)` called directly on a real transaction whose
+  -- blinding part balances: the value part with a chosen signed overage (run `overage`)
+  | ["ksum", sumIn, sumOut, ov] =>
+    let ovI : Option Int := if ov.startsWith "-" then (ov.drop 1).toString.toNat?.map (fun n => -(n : Int)) else ov.toNat?.map (fun n => (n : Int))
+    match nat? sumIn, nat? sumOut, ovI with
+    | some i, some o, some v => (st, cmpModel (kernelSumsValues i o v).show impl)
+    | _, _, _ => (st, .unknown)
+  -- `x as i64` as the code computes the overage from a fee
+  | ["asi64", x] => match nat? x with
+    | some x => (st, cmpModel (toString (asI64 x)) impl)
     | none => (st, .unknown)
   | ["agg", _, idx] =>
     match (parseNatList idx).bind st.getTxs with
